@@ -566,7 +566,7 @@ func world(c histCase) ([]*replica, error) {
 			}
 			qc = hotstuff.NewQuorumCert(sig, parent.View(), parent.Hash())
 		}
-		b := hotstuff.NewBlock(parent.Hash(), qc, &clientpb.Batch{}, hotstuff.View(view), hotstuff.ID(spec.Proposer))
+		b := kit.NewBlock(parent.Hash(), qc, &clientpb.Batch{}, hotstuff.View(view), hotstuff.ID(spec.Proposer))
 		b.SetTimestamp(time.Unix(1_700_000_000, int64(i)))
 		wire, err := proto.Marshal(hotstuffpb.BlockToProto(b))
 		if err != nil {
